@@ -19,20 +19,33 @@ WORKERS = 6                 # chunks in flight (harness gen -> model driver -> d
 
 MANIFEST_ENTRY = {
     "level_claimed": {"category": "proof",
-        "text": "Lean theorems for every history of add_node_if_none / inc_ref / remove / rename_path / sort from the empty graph: the "
-                "vector+index representation of ModuleGraph refines a plain reference graph (node set, edge set, reachability) for "
-                "every operation and every query (get_node, depends_on, deep_depends_on, children, parents, ancestors); inc_ref "
-                "refuses exactly the edges that would close a cycle and leaves the edges unchanged when it refuses; tsort returns a "
-                "permutation in dependency order on closed acyclic graphs and reports CyclicReference / KeyNotFound exactly when the "
-                "graph is cyclic / not closed. The model transcribes graph.rs and tsort.rs and is tied to the Rust code by a "
-                "state-machine correspondence (every query after every operation, 2 000 histories quick / 200 000 thorough)."},
-    "level_note": "trusted: Lean kernel + {propext, Classical.choice, Quot.sound}; module paths are opaque keys (non-existent files, so "
-                  "is_dir() is false and the DEBUG panics of add_node_if_none/inc_ref are outside the model); FxHashSet is modelled as a "
-                  "duplicate-free list and the driver adopts the real iteration order from the implementation's state dump (theorems "
-                  "hold for every order); on graphs with a dangling edge `sort` has no reference meaning beyond 'an error is reported'; "
-                  "the transcription is checked by differential runs, not verified. (placeholder text; the theorem list is in notes/C21.md)",
-    "technique": "Lean 4 proof (representation invariant + refinement to a reference graph, DFS post-conditions for tsort, induction on "
-                 "the history) + differential state-machine correspondence with an independent executable reference graph",
+        "text": "Lean theorems, for every history of add_node_if_none / inc_ref / remove / rename_path / sort from the empty graph (no bound "
+                "on length or on the number of paths): the vector+index representation of ModuleGraph keeps its invariant, refines a plain "
+                "reference graph (node set, edge set, transitive closure) at every operation, reports the result the reference graph "
+                "prescribes and never panics (C21_inv, C21_refine, C21_no_crash, C21_history, C21_history_result); every query — get_node, "
+                "depends_on, deep_depends_on (DFS with visited set = reachability), children, parents, ancestors — answers as the reference "
+                "graph (C21_query_*, C21_history_queries); inc_ref refuses exactly the edges that would close a cycle, leaves the edge "
+                "set unchanged when it refuses and preserves acyclicity (C21_incref_cycle, C21_acyclic, C21_history_acyclic); tsort returns "
+                "a permutation with every node after its dependencies, reports CyclicReference exactly when a closed graph has a cycle, "
+                "KeyNotFound only for a dangling dependency, and never panics (C21_tsort_sound, C21_tsort_complete, C21_tsort_errors, "
+                "C21_tsort_total, C21_sort). The model transcribes graph.rs and tsort.rs (after fix f50fd18b) and is tied to the Rust code by a "
+                "state-machine correspondence: histories <= 40 over 6 paths, every query after every operation, 2 000 histories quick / "
+                "200 000 thorough, shrinking by operation deletion."},
+    "level_note": "trusted: Lean kernel + {propext, Classical.choice, Quot.sound}; transcription checked by differential runs, not verified. "
+                  "Module paths are opaque keys (non-existent files: is_dir() false, the is_dir early returns / DEBUG panics of "
+                  "add_node_if_none and inc_ref are outside the model; NormalizedPathBuf construction is C31). FxHashSet is a duplicate-free "
+                  "list whose order is arbitrary in every theorem; the driver adopts the real iteration order from the implementation's state "
+                  "dump (C21_order_irrelevant) so that tsort's exact output order is compared. 'Leaves the graph unchanged' on a refused "
+                  "inc_ref is proved as: edge set unchanged, node set grows at most by the referrer (add_node_if_none(referrer) precedes the "
+                  "test); fully unchanged when the referrer was registered (C21_incref_refused_unchanged). Rename onto a registered path "
+                  "follows file-system semantics (the target is replaced) and can create a cycle in the reference graph too, so "
+                  "C21_history_acyclic is stated for rename-free histories. On graphs with a dangling edge (inc_ref does not register its "
+                  "target) sort has no reference answer beyond 'an error': KeyNotFound, or CyclicReference if there is a cycle as well. "
+                  "tsort theorems assume duplicate-free node ids (an invariant of ModuleGraph, proved). The executable reference graph "
+                  "in the driver (spec-verdict column) is an independent naive implementation of Spec.lean, not proved equal to it.",
+    "technique": "Lean 4 proof (representation invariant + refinement to a reference graph, visited-set lemmas for the two DFS queries, DFS "
+                 "post-conditions for tsort, induction on the history) + differential state-machine correspondence with an independent "
+                 "executable reference graph",
 }
 
 
